@@ -45,9 +45,16 @@ try:
     print("demo original:", res["demo_original"])
     ok &= rc == 0
     r = subprocess.run(["git", "-C", wt, "apply", "--whitespace=nowarn", os.path.join(src, "patch.diff")])
+    rebased = False
     if r.returncode:
-        print("PATCH-FAILED")
-        sys.exit(3)
+        # /repo HEAD moved (fix: commits) since the blind agent made the patch: retry with fuzz
+        r = subprocess.run(["patch", "-p1", "-F3", "--no-backup-if-mismatch", "-d", wt, "-i", os.path.join(src, "patch.diff")])
+        if r.returncode:
+            print("PATCH-FAILED")
+            sys.exit(3)
+        rebased = True
+        res["patch_rebased_onto_head"] = True
+    patch_text = subprocess.run(["git", "-C", wt, "diff"], capture_output=True, text=True).stdout
     if not a.skip_tests:
         r = subprocess.run(["/venv/bin/python", "-m", "pytest", "-q", "-p", "no:cacheprovider", "--timeout=900"],
                            cwd=wt, env=env, capture_output=True, text=True)
@@ -75,8 +82,9 @@ finally:
 if ok:
     dst = os.path.join(V, "seeded", a.seed_id)
     os.makedirs(dst, exist_ok=True)
-    for f in ("patch.diff", "demo.py"):
-        shutil.copy(os.path.join(src, f), os.path.join(dst, f))
+    shutil.copy(os.path.join(src, "demo.py"), os.path.join(dst, "demo.py"))
+    with open(os.path.join(dst, "patch.diff"), "w") as f:
+        f.write(patch_text)
     meta = {}
     try:
         meta = json.load(open(os.path.join(src, "meta.json")))
